@@ -182,6 +182,8 @@ type c15Call struct {
 	ctxOK bool
 	err   error
 	ev    int64
+	// the comparison with the value that was sent, made inside the invocation
+	valueChecked, valueEqual bool
 }
 
 var errC15 = errors.New("scripted cqrs handler error")
@@ -317,6 +319,7 @@ func c15Body(r *Run) {
 		r.Param("cancel_in_group", 1)
 	}
 	totalCalls := 0
+	sentByUUID := map[string]*c15Sent{} // filled before the router starts
 	rec := func(handler string, typ int, ctx context.Context, v any) error {
 		h := byName[handler]
 		h.calls++
@@ -329,8 +332,14 @@ func c15Body(r *Run) {
 		ev++
 		c.ev = ev
 		if om := cqrs.OriginalMessageFromCtx(ctx); om != nil {
-			c.d = h.sub.ByMsg[om]
+			c.d = h.sub.DeliveryFor(om)
 			c.ctxOK = c.d != nil
+		}
+		// the value is compared now: the processor may reuse the object for the next message
+		if c.d != nil {
+			if sm := sentByUUID[c.d.Msg.UUID]; sm != nil && sm.kind == 0 {
+				c.valueChecked, c.valueEqual = true, c15Equal(v, sm.value)
+			}
 		}
 		if h.failAt[h.calls] {
 			r.Fault("handler-error")
@@ -455,7 +464,6 @@ func c15Body(r *Run) {
 	for _, h := range hs {
 		r.Describe("handler %s group=%q topic=%s failAt=%v script=%d messages", h.name, h.group, h.topic, h.failAt, len(h.sub.Script[h.topic]))
 	}
-	sentByUUID := map[string]*c15Sent{}
 	for _, sm := range sent {
 		sentByUUID[sm.msg.UUID] = sm
 	}
@@ -530,6 +538,11 @@ func c15Body(r *Run) {
 					c15CheckUnknown(r, d, procKind, ackUnknown, what, sm, members, typName)
 					continue
 				}
+				if r.Params["cancel_in_group"] == 1 && len(got) < expectN && !failed && !d.Acked() {
+					// the message context ended inside the group: stopping there is fine as long as the message is not acked
+					r.Probe("group-stopped-on-ended-context-without-ack")
+					continue
+				}
 				if len(got) != expectN {
 					sig := "a matching handler was not invoked exactly once for a delivered message"
 					if procKind == 2 {
@@ -542,7 +555,7 @@ func c15Body(r *Run) {
 					if c.h != want[i] {
 						r.Fail("C15.R2", "handlers of a group were not called in registration order (or a non-matching handler was called)", "%s: position %d is %s, expected %s", what, i, c.h.name, want[i].name)
 					}
-					if !c15Equal(c.value, sm.value) {
+					if (c.valueChecked && !c.valueEqual) || (!c.valueChecked && !c15Equal(c.value, sm.value)) {
 						r.Fail("C15.R3", "the handler received a value different from the one sent", "%s: %v vs %v", what, c.value, sm.value)
 					}
 				}
